@@ -950,19 +950,8 @@ func (c *Ctx) havocModifies(s *State, mods []string, env *CEnv) {
 			}
 			c.havocObject(s, asInt(b.v), pt.Elem())
 		default:
-			prefix := strings.TrimSuffix(m, "*")
-			found := false
-			for k := range c.sorts {
-				if k == m || strings.HasPrefix(k, prefix) && (strings.HasSuffix(m, "*") || strings.HasPrefix(k[len(prefix):], "#") || strings.HasPrefix(k[len(prefix):], ".")) {
-					c.heapHavoc(s, k, c.heapSort(k))
-					found = true
-				}
-			}
-			if !found {
-				// key not touched so far in this function: it will be materialised later with the current epoch;
-				// force a new epoch for it
-				c.pendingHavoc(s, m)
-			}
+			// covers keys not touched so far in this function too (they are materialised later under a new epoch)
+			c.pendingHavoc(s, m)
 		}
 	}
 }
@@ -1101,9 +1090,10 @@ func (c *Ctx) protoUnmarshal(x *ast.CallExpr, s *State, args []Value) Value {
 	pt, isPtr := st.Underlying().(*types.Pointer)
 	if !isPtr {
 		// dynamic message type unknown: every protobuf message field may change
+		// (arrays holding repeated fields are allocated by the decoder; existing arrays are not written)
 		c.pendingHavoc(s, "F.pb.")
-		c.pendingHavoc(s, "M.")
-		c.frameCallee = append(c.frameCallee, "F.pb.*", "M.*")
+		c.frameCallee = append(c.frameCallee, "F.pb.*")
+		s.assume(implies(eq(err, "0"), c.pbReqFacts(s)))
 		return IntV{err}
 	}
 	c.havocObject(s, ref, pt.Elem())
@@ -1111,7 +1101,40 @@ func (c *Ctx) protoUnmarshal(x *ast.CallExpr, s *State, args []Value) Value {
 	// through the havocked pointer fields (fresh refs are unconstrained)
 	c.pendingHavocPB(s, ref)
 	c.requiredPresent(s, ref, pt.Elem(), eq(err, "0"), 0)
+	s.assume(implies(eq(err, "0"), c.pbReqFacts(s)))
 	return IntV{err}
+}
+
+// pbReqFacts: in the current heap every protobuf message object has its proto2 `req` pointer fields set.
+// (True of object graphs produced by a successful proto.Unmarshal; used as pbwf() in contracts.)
+func (c *Ctx) pbReqFacts(s *State) string {
+	p := c.eng.pkgByName["pb"]
+	if p == nil {
+		return "true"
+	}
+	var conj []string
+	for _, n := range p.Scope().Names() {
+		tn, ok := p.Scope().Lookup(n).(*types.TypeName)
+		if !ok {
+			continue
+		}
+		st, ok := tn.Type().Underlying().(*types.Struct)
+		if !ok {
+			continue
+		}
+		for i := 0; i < st.NumFields(); i++ {
+			f := st.Field(i)
+			if !strings.Contains(st.Tag(i), ",req,") {
+				continue
+			}
+			if _, isPtr := f.Type().Underlying().(*types.Pointer); !isPtr {
+				continue
+			}
+			arr := c.heapGet(s, fieldKey(tn.Type(), f.Name()), sA1)
+			conj = append(conj, fmt.Sprintf("(forall ((r Int)) (! (=> (< 0 r) (< 0 (select %s r))) :pattern ((select %s r))))", arr, arr))
+		}
+	}
+	return and(conj...)
 }
 
 // pendingHavocPB: sub-messages reachable from a decoded message are new objects with arbitrary contents.
